@@ -17,7 +17,7 @@ ObsDims == {"cpu", "memory", "pods"}
 
 RObj(e) == [node |-> e.node, phase |-> e.phase, policy |-> e.policy, once |-> e.once, term |-> e.term,
             alloc |-> e.alloc, ropts |-> e.ropts, reserved |-> e.reserved, owners |-> e.owners, bad |-> e.bad]
-PObj(e) == [pod |-> e.pod, ns |-> e.ns, app |-> e.app, ctrl |-> e.ctrl, pnode |-> e.pnode, ra |-> e.ra, req |-> e.req, dead |-> e.dead]
+PObj(e) == [pod |-> e.pod, name |-> Get(e, "name", e.pod), ns |-> e.ns, app |-> e.app, ctrl |-> e.ctrl, pnode |-> e.pnode, ra |-> e.ra, req |-> e.req, dead |-> e.dead]
 
 IdxOf(m) == [n \in DOMAIN m |-> SeqSet(m[n])]
 AllIdx(o) == {IdxOf(o.onNode), IdxOf(o.matchable), IdxOf(o.allocated)}
@@ -73,12 +73,16 @@ TMatch == IsEvent("match") /\ Ev.ok /\ Query(MatchedOK(Ev), "matched: known rese
 
 \* (O) (M): the nominated reservation is known, is not an allocate-once reservation that already holds another
 \*          pod, and its owner specification is satisfied by the pod
+\* (F) at nomination: the nominated reservation is what Reserve assumes the pod on, so a pod is only nominated a
+\*     Restricted reservation that has room for it in the state of the query (nothing is preempted on this path)
 NominatedOK(e) == e.nominated # "" =>
                      /\ e.nominated \in DOMAIN res
                      /\ ~OnceBusy(Cur, e.nominated, e.pod)
                      /\ OwnerSat(res[e.nominated], PObj(e))
+                     /\ res[e.nominated].policy = "Restricted" =>
+                           FitOK(res[e.nominated], SumVec(Cur, e.nominated), Cardinality(DOMAIN assigned[e.nominated]), <<>>, e.req)
 TNominate == IsEvent("nominate") /\ Ev.ok /\ Query(MatchedOK(Ev) /\ NominatedOK(Ev),
-                   "nominated: known, owners satisfied, not an allocate-once reservation holding another pod")
+                   "nominated: known, owners satisfied, not an allocate-once reservation holding another pod, a Restricted one has room for the request")
 
 (***************************** C19: restart *********************************)
 \* The scheduler restarts.  What survives is what the API server holds.  An informer event delivers the current API
@@ -93,9 +97,11 @@ ApiRes  == LET J == {j \in Past : Trace[j].op \in RInformer}
                last(u) == LastOf({j \in J : Trace[j].r = u})
                U == {u \in {Trace[j].r : j \in J} : Trace[last(u)].op # "rDelete"}
            IN [u \in U |-> RObj(Trace[last(u)])]
+\* (an update that replaces a pod by a re-created one - old.pod # pod - is the last word about the OLD pod too: it is gone)
 ApiPods == LET J == {j \in Past : Trace[j].op \in PInformer}
-               last(p) == LastOf({j \in J : Trace[j].pod = p})
-               P == {p \in {Trace[j].pod : j \in J} : Trace[last(p)].op # "podDelete"}
+               About(j) == IF Trace[j].op = "podUpdate" THEN {Trace[j].pod, Trace[j].old.pod} ELSE {Trace[j].pod}
+               last(p) == LastOf({j \in J : p \in About(j)})
+               P == {p \in UNION {About(j) : j \in J} : Trace[last(p)].op # "podDelete" /\ Trace[last(p)].pod = p}
            IN [p \in P |-> PObj(Trace[last(p)])]
 \* The state a freshly started scheduler must hold, whatever the order in which its informers deliver the surviving
 \* objects: the reservations that are usable according to their persisted status, each holding exactly the pods that
